@@ -50,6 +50,17 @@ fn keys() -> Vec<Vec<u8>> {
         }
         i += 1;
     }
+    // a fourth bucket (index 3 after the colliding key is spliced in at 1: index 4)
+    loop {
+        let k = format!("n{i}").into_bytes();
+        let b = feoxdb::utils::hash::murmur3_32(&k, 0) as usize % BUCKETS;
+        i += 1;
+        if !buckets.contains(&b) {
+            buckets.push(b);
+            picked.push(k);
+            break;
+        }
+    }
     loop {
         let k = format!("c{i}").into_bytes();
         let b = feoxdb::utils::hash::murmur3_32(&k, 0) as usize % BUCKETS;
@@ -65,13 +76,23 @@ fn keys() -> Vec<Vec<u8>> {
 
 fn value(id: u8) -> Bytes {
     // id 0: 400 KB, id 1: 300 KB, id 2: 10 bytes, id 3: 600 KB (refused: larger than high/4 at 2 MB)
-    let len = match id {
-        0 => 400 * 1024,
-        1 => 300 * 1024,
-        2 => 10,
-        _ => 600 * 1024,
-    };
-    Bytes::from(vec![0x40 + id; len])
+    // id 4: 2.2 MB (just under a quarter of a 10 MB high watermark)
+    static VALUES: std::sync::OnceLock<Vec<Bytes>> = std::sync::OnceLock::new();
+    let all = VALUES.get_or_init(|| {
+        (0..5u8)
+            .map(|id| {
+                let len = match id {
+                    0 => 400 * 1024,
+                    1 => 300 * 1024,
+                    2 => 10,
+                    4 => 2200 * 1024,
+                    _ => 600 * 1024,
+                };
+                Bytes::from(vec![0x40 + id; len])
+            })
+            .collect()
+    });
+    all[(id as usize).min(4)].clone()
 }
 
 fn alphabet(thorough: bool) -> Vec<Op> {
@@ -405,20 +426,23 @@ fn apply_model(m: &mut MCache, op: Op) -> Option<Option<u8>> {
 }
 
 /// Execute `hist` on a fresh real cache and a fresh model, comparing after each step.
-fn run_hist(keys: &[Vec<u8>], hist: &[Op]) -> Result<(u64, MCache), String> {
+fn run_hist(keys: &[Vec<u8>], hist: &[Op], init: (usize, usize)) -> Result<(u64, MCache), String> {
     let mut real = Real::new(keys);
     let mut model = MCache::new(keys);
     // every history starts with small watermarks so that four entries cross the high mark
-    real.cache.adjust_watermarks(2, 1);
-    apply_model(&mut model, Op::Watermarks(2, 1));
+    real.cache.adjust_watermarks(init.0, init.1);
+    apply_model(&mut model, Op::Watermarks(init.0, init.1));
+    crate::util::set_context(json!({"engine": "c16-fsm", "history": format!("{hist:?}"), "watermarks_mb": [init.0, init.1]}));
     let mut removed_unversioned: HashSet<u8> = HashSet::new();
     for (i, &op) in hist.iter().enumerate() {
         // facts needed by the policy-independent oracle
         let before = real.cache.verif_entries();
         let usage_before = real.stats.cache_memory.load(Ordering::Relaxed);
         let low_before = real.cache.stats().low_watermark;
-        let got = std::panic::catch_unwind(std::panic::AssertUnwindSafe(|| apply_real(&mut real, op)))
-            .map_err(|_| format!("step {i} {op:?} panicked"))?;
+        let got = {
+            let _call = crate::util::in_call("cache call");
+            std::panic::catch_unwind(std::panic::AssertUnwindSafe(|| apply_real(&mut real, op))).map_err(|_| format!("step {i} {op:?} panicked"))?
+        };
         let want = apply_model(&mut model, op);
         let ctx = |msg: String| format!("after {:?} (step {i}): {msg}", op);
         if got != want {
@@ -506,20 +530,44 @@ fn eviction_alphabet(thorough: bool) -> Vec<Op> {
 
 pub fn run_fsm(tier: &str, budget_s: f64, report: &mut Report) {
     let thorough = tier == "thorough";
-    run_fsm_with("general", alphabet(thorough), if thorough { 6 } else { 4 }, budget_s * 0.6, report);
+    run_fsm_with("general", alphabet(thorough), if thorough { 6 } else { 4 }, budget_s * 0.5, (2, 1), report);
     if report.violations.is_empty() {
-        run_fsm_with("eviction", eviction_alphabet(thorough), if thorough { 14 } else { 10 }, budget_s * 0.4, report);
+        run_fsm_with("eviction", eviction_alphabet(thorough), if thorough { 14 } else { 10 }, budget_s * 0.3, (2, 1), report);
+    }
+    if report.violations.is_empty() {
+        run_fsm_narrow(tier, budget_s * 0.2, report);
     }
 }
 
-fn run_fsm_with(label: &str, ops: Vec<Op>, depth: usize, budget_s: f64, report: &mut Report) {
+/// Watermarks less than a quarter of the high mark apart (10 MB / 9 MB): an entry that grows in place
+/// can carry the usage past the high mark although the check before the insert found nothing to evict
+/// (usage at or below the low mark). Five keys, values of 10 bytes and 2.2 MB.
+pub fn run_fsm_narrow(tier: &str, budget_s: f64, report: &mut Report) {
+    let thorough = tier == "thorough";
+    let mut ops = Vec::new();
+    for k in 0..5u8 {
+        ops.push(Op::Insert(k, 4));
+    }
+    ops.push(Op::Insert(0, 2));
+    ops.push(Op::Insert(1, 2));
+    ops.push(Op::Get(0));
+    ops.push(Op::Evict);
+    if thorough {
+        ops.push(Op::Get(1));
+        ops.push(Op::Remove(2));
+        ops.push(Op::InsertFor(0, 4, 0));
+    }
+    run_fsm_with("narrow-band", ops, if thorough { 9 } else { 7 }, budget_s, (10, 9), report);
+}
+
+fn run_fsm_with(label: &str, ops: Vec<Op>, depth: usize, budget_s: f64, init: (usize, usize), report: &mut Report) {
     let keys = keys();
     let dl = Deadline::new(budget_s);
     let threads = crate::util::worker_threads();
     let seen: Mutex<HashSet<u64>> = Mutex::new(HashSet::new());
     let transitions = AtomicU64::new(0);
     let stop = AtomicBool::new(false);
-    let (k0, _) = run_hist(&keys, &[]).expect("empty history");
+    let (k0, _) = run_hist(&keys, &[], init).expect("empty history");
     seen.lock().unwrap().insert(k0);
     let mut level: Vec<Vec<Op>> = vec![vec![]];
     let mut completed = 0;
@@ -537,7 +585,7 @@ fn run_fsm_with(label: &str, ops: Vec<Op>, depth: usize, budget_s: f64, report: 
                 let mut h = hist.clone();
                 h.push(op);
                 transitions.fetch_add(1, Ordering::Relaxed);
-                match run_hist(&keys, &h) {
+                match run_hist(&keys, &h, init) {
                     Ok((k, _)) => {
                         if seen.lock().unwrap().insert(k) {
                             next.lock().unwrap().push(h);
